@@ -159,6 +159,45 @@ def explore_field_target(S, want=('C04',)):
                            'when the literal does not end in a dot' % (kind, lit), body)
         for lab, mdl, info in ex.violations:
             found.append((lab, info))
+    # the literal itself as target, separated from the dot by whitespace (`1. .abs()`): the blank (or parentheses) must stay when the
+    # literal ends in a dot
+    for kind, lit in LITS:
+        for shape in ('access', 'call'):
+            def body2(ctx, kind=kind, lit=lit, shape=shape):
+                m = S.machine(core, STD, ctx)
+                litn = Node(kt.k(kind), text=Str.lit(lit))
+                fa = Node(kt.k('FieldAccess'), children=[litn, Node(kt.k('Space'), text=Str.lit(' ')), Node(kt.k('Dot'), text=Str.lit('.')), Node(kt.k('Ident'), text=Str.lit('name'))])
+                root = fa if shape == 'access' else Node(kt.k('FuncCall'), children=[fa, Node(kt.k('Args'), children=[Node(kt.k('LeftParen'), text=Str.lit('(')), Node(kt.k('RightParen'), text=Str.lit(')'))])])
+                pr, cfg = pp.printer(m)
+                c0 = pp.context()
+                ctx.assume(z3.ULT(c0.get('mode').disc, 3))
+                ctx.assume(z3.UGT(c0.get('mode').disc, 0))          # code: in markup / math the blank ends the embedded expression
+                describe = lambda mdl: dict(container='field-access-bare', shape=shape, kind=kind, literal=lit, next_char='.', suppressed=model_bool(mdl, c0.get('break_suppressed')),
+                                            mode=model_int(mdl, c0.get('mode').disc))
+                try:
+                    d = m.call_fn(f_expr, [pr, c0, T.make_cast(m, root, 'Expr')])
+                except Panic as p:
+                    S.absorb(m)
+                    ctx.must_hold(False, 'C05:embedded-literal-panic', lambda mdl: dict(describe(mdl), panic=p.msg))
+                    return
+                S.absorb(m)
+                if want[0] == 'C05':
+                    return
+                for mode, at in atoms_modes(d).items():
+                    ft = [a for a in _flat_text(at) if a != ('c', '')]
+                    idx = [i for i, a in enumerate(ft) if a == ('c', lit)]
+                    if len(idx) != 1:
+                        ctx.must_hold(False, '%s:embedded-literal-lost' % want[0], lambda mdl, at=at, mode=mode: dict(describe(mdl), layout=mode, atoms=show_atoms(at)))
+                        continue
+                    after = ft[idx[0] + 1] if idx[0] + 1 < len(ft) else None
+                    touching = after is not None and after[0] == 'c' and after[1].startswith('.')
+                    ctx.must_hold(not (touching and lit.endswith('.')), '%s:literal-that-ends-in-a-dot-fuses-with-the-dot-of-the-access' % want[0],
+                                  lambda mdl, at=at, mode=mode: dict(describe(mdl), layout=mode, atoms=show_atoms(at)))
+                    ctx.witness('literal target')
+            ob, ex = S.explore('embedded[field-access-bare,%s,%s %s]' % (shape, kind, lit), 'a %s literal `%s .name%s` as target of a field access: a literal that ends in a dot does not '
+                               'touch the dot of the access' % (kind, lit, '()' if shape == 'call' else ''), body2)
+            for lab, mdl, info in ex.violations:
+                found.append((lab, info))
     return found
 
 
@@ -179,7 +218,9 @@ def significant(toks):
 
 def confirm_embedded(S, info):
     lit, ch = info['literal'], info['next_char']
-    if info['container'] == 'field-access':
+    if info['container'] == 'field-access-bare':
+        src = '#{\n  %s .name%s\n}\n' % (lit, '()' if info.get('shape') == 'call' else '')
+    elif info['container'] == 'field-access':
         src = '#(%s).name\n' % lit
     elif info['container'] == 'attach':
         src = '$x_#(%s)%s$\n' % (lit, ch)
